@@ -75,8 +75,9 @@ print("without change: demo exit =", drc0)
 meta["confirmed"] = bool(ok and drc not in (0, None) and drc0 == 0)
 dst = os.path.join(V, "seeded", name)
 os.makedirs(dst, exist_ok=True)
-shutil.copy(os.path.join(sd, "patch.diff"), dst)
-shutil.copy(os.path.join(sd, "demo.cpp"), dst)
+if os.path.abspath(sd) != os.path.abspath(dst):
+    shutil.copy(os.path.join(sd, "patch.diff"), dst)
+    shutil.copy(os.path.join(sd, "demo.cpp"), dst)
 if os.path.exists(os.path.join(sd, "README.md")):
     shutil.copy(os.path.join(sd, "README.md"), os.path.join(dst, "AGENT_README.md"))
 meta["needs"] = ""
